@@ -32,6 +32,7 @@ type Env struct {
 	Start    time.Time
 	Deadline time.Time // internal deadline: stop early, exit 0, exhaustive:false
 	Args     []string
+	OutFile  string // child: where the shard result is written
 }
 
 func (e *Env) Quick() bool     { return e.Tier != "thorough" }
@@ -297,6 +298,7 @@ func Main() {
 	}
 	if outFile != "" {
 		// child
+		e.OutFile = outFile
 		r := NewResult()
 		func() {
 			defer func() {
@@ -589,4 +591,56 @@ func Digest(parts ...[]byte) string {
 		h.Write(p)
 	}
 	return hex.EncodeToString(h.Sum(nil)[:8])
+}
+
+// ---- hang guard
+
+type guardState struct {
+	mu      sync.Mutex
+	active  bool
+	started time.Time
+	info    func() (key, desc string, replay any)
+	r       *Result
+	e       *Env
+	limit   time.Duration
+}
+
+var guard guardState
+var guardOnce sync.Once
+
+// Guard protects one case against a hang (a decoder that loops forever cannot
+// be interrupted): if the case is still running after limit of wall-clock
+// time - orders of magnitude above its normal cost - the violation described
+// by info is recorded, the shard result is written and the process exits;
+// the rest of the shard is reported as capped.  Call the returned func when
+// the case is over.
+func (e *Env) Guard(r *Result, limit time.Duration, info func() (key, desc string, replay any)) func() {
+	guardOnce.Do(func() {
+		go func() {
+			for {
+				time.Sleep(500 * time.Millisecond)
+				guard.mu.Lock()
+				if guard.active && time.Since(guard.started) > guard.limit {
+					k, d, rp := guard.info()
+					rr, ee := guard.r, guard.e
+					guard.mu.Unlock()
+					rr.Violate(k, d, rp)
+					rr.Cap("shard %d stopped by the hang guard; its remaining cases were not run", ee.Shard)
+					if ee.OutFile != "" {
+						writeResult(ee.OutFile, rr)
+					}
+					os.Exit(0)
+				}
+				guard.mu.Unlock()
+			}
+		}()
+	})
+	guard.mu.Lock()
+	guard.active, guard.started, guard.info, guard.r, guard.e, guard.limit = true, time.Now(), info, r, e, limit
+	guard.mu.Unlock()
+	return func() {
+		guard.mu.Lock()
+		guard.active = false
+		guard.mu.Unlock()
+	}
 }
